@@ -7,14 +7,16 @@
 //! with `ErrorKind::Interrupted` (`0` = never).  `rc` = chunk size of the source the text is read
 //! back from (`0` = one piece); every 3rd `read` call of that source is `Interrupted` when `rc` is odd.
 //!
-//! Answer: `I <view> fl=<n> | V <view>` with
-//! `view = obs=[len:fnv,…] drop=len:fnv[:hex] fmt=ok|bad rt=ok|na|bad@i|skip`.
+//! Answer: `I <view> | V <view>` with
+//! `view = obs=[len:fnv,…] drop=len:fnv[:hex] fmt=ok|bad rt=ok|na|bad@i|skip ub=ok|na|bad@i`.
 //!   * `obs`  : the sink's contents after every explicit `flush()`;
 //!   * `drop` : the sink's contents after the writer was dropped;
 //!   * `fmt`  : the sink's contents equal `format!("{}")` / verbatim strings / `' '`-joined sequences
 //!              (oracle written here, independent of the Lean model);
 //!   * `rt`   : the leaves read back through `Reader` equal the values written;
-//!   * `fl`   : number of `write_all` calls the sink saw (raw only: not part of the property).
+//!   * `ub`   : debug build only — after every operation the sink already held everything written so far;
+//!   * `fl`   : number of `write_all` calls the sink saw — printed (raw part) only for diagnostic lines whose
+//!              header says `fl=1`; never compared by `check` (logged in the evidence by `checks/C09.py`).
 //!
 //! Second line kind (C09 bridge): `r buf=<BUF> dbg=<0|1|*> rbuf=<n> rc=<n> alt=<0|1> ; op ; op ; …` — the same
 //! ops are written through the real `Writer` (plain sink), the sink bytes are read back through the real
@@ -391,6 +393,9 @@ struct Hdr {
     j: usize,
     rt: bool,
     rc: usize,
+    /// `fl=1`: diagnostic line — append the number of `write_all` calls to the raw part (never generated,
+    /// only used by the non-compared flush-count diagnostic of `checks/C09.py`)
+    fl: bool,
 }
 
 fn parse_hdr(s: &str) -> Option<Hdr> {
@@ -414,6 +419,7 @@ fn parse_hdr(s: &str) -> Option<Hdr> {
         j: get("j").unwrap_or("0").parse().ok()?,
         rt: get("rt")? == "1",
         rc: get("rc").unwrap_or("0").parse().ok()?,
+        fl: get("fl") == Some("1"),
     })
 }
 
@@ -534,11 +540,43 @@ fn run_case(line: &str) -> String {
         return out1("INVALID");
     }
 
+    // oracle: expected text (and its length after every op)
+    let mut want = Vec::new();
+    let mut lv: Vec<&HVal> = Vec::new();
+    let mut cum: Vec<usize> = Vec::new();
+    for op in &ops {
+        match op {
+            Op::Write(v) => {
+                fmt_val(v, &mut want);
+                leaves(v, &mut lv);
+            }
+            Op::Char(c) => want.push(*c as u32 as u8),
+            Op::Flush => {}
+            Op::Out(nl, vs) => {
+                for (i, v) in vs.iter().enumerate() {
+                    if i != 0 {
+                        want.push(b' ');
+                    }
+                    fmt_val(v, &mut want);
+                    leaves(v, &mut lv);
+                }
+                if *nl {
+                    want.push(b'\n');
+                }
+            }
+        }
+        cum.push(want.len());
+    }
+
     let data = Rc::new(RefCell::new(Vec::<u8>::new()));
     let count = Rc::new(Cell::new(0usize));
+    // first op after which the sink did not yet hold everything written so far (flush-per-write builds: none)
+    let behind = Rc::new(Cell::new(None::<usize>));
     let res = {
         let data = data.clone();
         let count = count.clone();
+        let behind = behind.clone();
+        let cum = &cum;
         let ops = &ops;
         let (k, j) = (hdr.k, hdr.j);
         catch(move || {
@@ -548,7 +586,7 @@ fn run_case(line: &str) -> String {
             let reader = ();
             rlib_io::make_output_macro!(reader, writer);
             let mut obs: Vec<String> = Vec::new();
-            for op in ops {
+            for (i, op) in ops.iter().enumerate() {
                 match op {
                     Op::Write(v) => write_top(&mut writer, v),
                     Op::Char(c) => writer.write_char(*c),
@@ -576,6 +614,9 @@ fn run_case(line: &str) -> String {
                         _ => unreachable!(),
                     },
                 }
+                if behind.get().is_none() && data.borrow().len() != cum[i] {
+                    behind.set(Some(i));
+                }
             }
             // the writer goes out of scope
             unsafe { ManuallyDrop::drop(&mut writer) };
@@ -588,31 +629,6 @@ fn run_case(line: &str) -> String {
     };
     let got = data.borrow().clone();
 
-    // oracle: expected text
-    let mut want = Vec::new();
-    let mut lv: Vec<&HVal> = Vec::new();
-    for op in &ops {
-        match op {
-            Op::Write(v) => {
-                fmt_val(v, &mut want);
-                leaves(v, &mut lv);
-            }
-            Op::Char(c) => want.push(*c as u32 as u8),
-            Op::Flush => {}
-            Op::Out(nl, vs) => {
-                for (i, v) in vs.iter().enumerate() {
-                    if i != 0 {
-                        want.push(b' ');
-                    }
-                    fmt_val(v, &mut want);
-                    leaves(v, &mut lv);
-                }
-                if *nl {
-                    want.push(b'\n');
-                }
-            }
-        }
-    }
     let fmt_ok = got == want;
 
     // read back
@@ -662,19 +678,32 @@ fn run_case(line: &str) -> String {
         }
     };
 
+    // `ub` (unbuffered): in a flush-per-write (debug) build nothing is pending after any operation.
+    // Only stated for lines generated for the debug build and run on it; `na` otherwise (a release build
+    // may deliver early or late as it likes — only flush/drop are promised).
+    let ub = match hdr.dbg {
+        Some(true) if cfg!(debug_assertions) => match behind.get() {
+            None => "ok".to_string(),
+            Some(i) => format!("bad@{}", i),
+        },
+        Some(true) => "na(profile-mismatch)".to_string(),
+        _ => "na".to_string(),
+    };
     let view = format!(
-        "obs=[{}] drop={} fmt={} rt={}",
+        "obs=[{}] drop={} fmt={} rt={} ub={}",
         obs.join(","),
         drop_str(&got),
         if fmt_ok { "ok" } else { "bad" },
-        rt
+        rt,
+        ub
     );
-    let fl = match hdr.dbg {
-        Some(d) if d == cfg!(debug_assertions) => count.get().to_string(),
-        Some(_) => "*(profile-mismatch)".to_string(),
-        None => "*".to_string(),
-    };
-    out2(&format!("{} fl={}", view, fl), &view)
+    // The number of `write_all` calls is NOT part of the compared result (when bytes reach the sink before
+    // flush/drop is not promised); it is reported only on diagnostic lines (`fl=1` in the header).
+    if hdr.fl {
+        out2(&format!("{} fl={}", view, count.get()), &view)
+    } else {
+        out1(&view)
+    }
 }
 
 // ------------------------------------------------------------------------------------------------
@@ -1006,10 +1035,24 @@ struct Gen<'a> {
     buf: usize,
     dbg: &'a str,
     emit: &'a mut dyn FnMut(String),
+    /// what every emitted `w` case ends with, per sink kind (merged into the Stats at the end)
+    tally: std::collections::BTreeMap<String, u64>,
+}
+
+fn sink_kind(k: usize, j: usize) -> &'static str {
+    match (k > 0, j > 0) {
+        (false, false) => "accepts_all",
+        (true, false) => "partial",
+        (false, true) => "interrupting",
+        (true, true) => "partial_interrupting",
+    }
 }
 
 impl<'a> Gen<'a> {
     fn case(&mut self, k: usize, j: usize, rt: bool, rc: usize, ops: &[String]) {
+        // is the tail of the output delivered by `Drop` alone (no explicit flush after the last write)?
+        let ending = if ops.last().map(|o| o.trim() == "F").unwrap_or(true) { "ends_with_flush" } else { "drop_without_flush" };
+        *self.tally.entry(format!("{}_sink_{}", ending, sink_kind(k, j))).or_insert(0) += 1;
         (self.emit)(format!(
             "w buf={} dbg={} k={} j={} rt={} rc={} ; {}",
             self.buf,
@@ -1056,7 +1099,7 @@ fn gen(args: &Args, emit: &mut dyn FnMut(String), st: &mut Stats) {
     let dbg_build = profile == "debug";
     let mut rng = SplitMix64::new(args.seed ^ 0xC09 ^ if dbg_build { 0x5555 } else { 0 });
     let mags = boundary_mags();
-    let mut g = Gen { buf, dbg: if dbg_build { "1" } else { "0" }, emit };
+    let mut g = Gen { buf, dbg: if dbg_build { "1" } else { "0" }, emit, tally: Default::default() };
 
     // (1) every boundary value of every integer type, alone and in sequences ---------------------
     for ty in TYPES.iter() {
@@ -1152,6 +1195,70 @@ fn gen(args: &Args, emit: &mut dyn FnMut(String), st: &mut Stats) {
             }
         }
         d += dstep;
+    }
+
+    // (2b) the tail is delivered by `Drop` alone (no flush after the last write), under every sink kind ---------
+    //      (an optimised build keeps the tail in the buffer until the drop; `Drop` must use `write_all` semantics)
+    for (si, &(k0, j)) in [(0usize, 0usize), (1, 0), (3, 0), (usize::MAX, 0), (0, 2), (0, 3), (1, 2), (5, 3), (usize::MAX, 2)].iter().enumerate() {
+        for (ti, &tail) in [1usize, 2, 7, 40, 1000, buf - 1, buf].iter().enumerate() {
+            let k = if k0 == usize::MAX { tail / 2 + 1 } else { k0 };
+            for prefix in 0..3 {
+                let mut ops: Vec<String> = Vec::new();
+                match prefix {
+                    1 => {
+                        ops.push(format!("W s:0:{}:{}", 10 + ti, si));
+                        ops.push("F".to_string());
+                    }
+                    2 => ops.push(format!("W s:1:{}:{}", buf + 5 + si, ti)), // spills: one flush from `reserve`, rest stays pending
+                    _ => {}
+                }
+                match (si + ti + prefix) % 3 {
+                    0 => ops.push(format!("W s:0:{}:{}", tail, si + ti)),
+                    1 => {
+                        ops.push(format!("L 2 i64:-7 s:0:{}:{}", tail, ti));
+                        ops.push("W u8:9".to_string());
+                    }
+                    _ => {
+                        ops.push(format!("W v 3 u16:40 i8:-7 S:0:{}:{}", tail, si));
+                        ops.push("C 33".to_string());
+                    }
+                }
+                g.case(k, j, false, 0, &ops);
+                st.bump(&format!("drop_tail_dedicated_sink_{}", sink_kind(k, j)));
+            }
+        }
+    }
+
+    // (2c) a multi-byte piece ends exactly on the buffer boundary (fill level = BUF), the next call is `write_char`
+    //      — directly, or as the separator of a Vec / tuple / out! / the newline of outln! ------------------------
+    {
+        let u64max = "u64:18446744073709551615"; // 20 bytes
+        let u128max = "u128:340282366920938463463374607431768211455"; // 39 bytes
+        let scripts: Vec<Vec<String>> = vec![
+            vec![format!("W s:0:{}:1", buf), "C 65".into()],
+            vec![format!("W S:1:{}:2", buf), "C 10".into(), "W i8:-1".into()],
+            vec![format!("W s:0:{}:3", buf - 20), format!("W {}", u64max), "C 32".into()],
+            vec![format!("W s:0:{}:4", buf - 39), format!("W {}", u128max), "C 10".into(), "F".into()],
+            vec![format!("W s:0:{}:5", buf - 40), format!("W i128:-170141183460469231731687303715884105728"), "C 33".into()],
+            vec![format!("W s:0:{}:6", buf - 2), "W v 2 u8:12 u8:3".into()],
+            vec![format!("W s:0:{}:7", buf - 2), "W t 2 x:6162 u8:1".into()],
+            vec![format!("W s:0:{}:8", buf - 20), format!("W v 3 {} {} {}", u64max, u64max, u64max)],
+            vec![format!("L 1 s:0:{}:9", buf)],
+            vec![format!("O 2 s:0:{}:10 u8:5", buf), "F".into()],
+            vec![format!("W s:0:{}:11", buf - 3), "L 2 u8:100 i8:-5".into()],
+            vec![format!("W s:0:{}:12", 2 * buf), "C 65".into()],
+            vec![format!("W s:0:{}:13", buf - 5), "W x:68656c6c6f".into(), "C 32".into(), "W x:68656c6c6f".into()],
+            vec![format!("W s:0:{}:14", buf - 1), "C 65".into(), "C 66".into(), "C 67".into()],
+        ];
+        for (n, ops) in scripts.iter().enumerate() {
+            for &(k, j) in [(0usize, 0usize), (1, 0), (buf / 3 + 1, 2), (0, 3)].iter() {
+                if dbg_build && (k, j) != (0, 0) && n % 2 == 1 {
+                    continue;
+                }
+                g.case(k, j, false, 0, ops);
+                st.bump("full_buffer_then_char");
+            }
+        }
     }
 
     // (3) string pieces around the buffer size, at several fill levels -----------------------------
@@ -1351,6 +1458,9 @@ fn gen(args: &Args, emit: &mut dyn FnMut(String), st: &mut Stats) {
     for c in [128u32, 233, 255, 256, 0x20AC, 0x1F600] {
         g.case(0, 0, false, 0, &[format!("C {}", c), "W u8:7".to_string()]);
         st.bump("out_of_domain_char");
+    }
+    for (k, v) in std::mem::take(&mut g.tally) {
+        st.add(&k, v);
     }
 }
 
